@@ -54,6 +54,32 @@ def known_findings(prop=None):
     return out
 
 
+def match_exception_finding(known, sig):
+    """known: dict id -> entry (or iterable of ids); an entry may carry
+    'exception_signature' (regex on 'Type: message @ file:line func')."""
+    import re
+    entries = known if isinstance(known, dict) else known_findings()
+    for fid, e in entries.items():
+        if not isinstance(known, dict) and fid not in known:
+            continue
+        pat = e.get("exception_signature")
+        if pat and re.search(pat, sig):
+            return fid
+    return None
+
+
+def match_schema_finding(known, err, instance=None):
+    import re
+    entries = known if isinstance(known, dict) else known_findings()
+    for fid, e in entries.items():
+        if not isinstance(known, dict) and fid not in known:
+            continue
+        pat = e.get("schema_signature")
+        if pat and re.search(pat, err):
+            return fid
+    return None
+
+
 # ----------------------------------------------------------- nbdime state
 _pristine = {}
 
